@@ -35,6 +35,7 @@ func init() {
 			{ID: "R08.11", Template: "T-CONSULT", Text: "amd64: no argument register is overwritten after the arguments of a call were placed (genuine defect found and fixed: r11 in indirect tail calls)", Min: 1},
 			{ID: "R08.12", Template: "T-CONSULT", Text: "a Go-callable function object is not built from a host module's (missing) entry preamble (known finding: re-exported host functions panic on the compiler)", Min: 1},
 			{ID: "R08.10", Template: "T-MUSTPASS", Text: "results written by a host function are never masked by the parameter types", Min: 4},
+			{ID: "R08.14", Template: "T-OWN", Text: "the functions yielding the types of a host call keep no state in the call engine", Min: 1},
 			{ID: "R08.13", Template: "T-MUSTPASS", Text: "the compiler's Go side zero-extends the 32-bit results of a Go host function before the generated code reads them (genuine defect found and fixed)", Min: 4},
 			{ID: "R08.9", Template: "T-MUSTPASS", Text: "the compiler's Go side zero-extends 32-bit slots before host functions, listeners and Call/CallWithStack callers see them (genuine defect found and fixed)", Min: 7},
 		},
@@ -527,6 +528,7 @@ func runC08(c *core.Ctx) {
 
 	checkEmitterWidths(c)
 	checkSlotNormalisation(c, "R08.9", "R08.10")
+	checkHostCallTypesStateless(c)
 	checkArgRegsNotClobbered(c)
 	checkEntryPreambleForHostModules(c)
 	checkFreshCallEngine(c)
